@@ -30,7 +30,7 @@ TAP = {'solves': 0, 'bad': []}
 def gates(tier):
     return {'list_calls': 4000, 'unordered_calls': 1500, 'ordered_calls': 800, 'multi_list_calls': 600,
             'grouped_calls': 400, 'no_partial_credit_calls': 600, 'permutation_sets': 150,
-            'munkres_solves_validated': 2000, 'nontrivial_unordered': 800}
+            'munkres_solves_validated': 2000, 'nontrivial_unordered': 800, 'singlelist_subgrader_calls': 1000}
 
 
 def install_tap(ctx):
@@ -185,8 +185,18 @@ def run_flat(ctx):
         partial_credit = rng.random() < 0.7
         nlists = rng.choice([1, 1, 2, 3])
         lists = []
+        tie_pattern = nlists == 3 and rng.random() < 0.4
         for li in range(nlists):
             C = rand_matrix(rng, n, rng.choice(['identity', 'diag_dominant', 'random', 'random', 'fine', 'float']))
+            if tie_pattern:
+                # lists 0 and 2 reach exactly the same best total with the credit spread differently over the boxes,
+                # list 1 is strictly worse: the tie-break between alternative lists must still return a best one
+                d = [1, 0.5, 0.25, 1, 0.5, 0.25][:n]
+                if li == 1:
+                    C = [[0.25 if a == b else 0 for b in range(n)] for a in range(n)]
+                else:
+                    rot = d if li == 0 else d[1:] + d[:1]
+                    C = [[rot[a] if a == b else 0 for b in range(n)] for a in range(n)]
             lists.append(make_answers(rng, n, C, 'L%d' % li))
         table = {}
         for _, t, _ in lists:
@@ -348,10 +358,73 @@ def run_grouped(ctx):
             ctx.violation('C05:grouped:suboptimal', 'total %r, best possible %r' % (total, best), wit)
 
 
+def run_singlelist_subgrader(ctx):
+    """ListGrader whose subgrader is a SingleListGrader: every box holds a delimited list."""
+    from mitxgraders import ListGrader, SingleListGrader
+    from vf.oracle import listmodel
+    rng = ctx.rng
+    alpha = ['a', 'b', 'c', 'd', 'e', 'f']
+    for i in range(ctx.n(1600, 20000)):
+        n = rng.randint(2, 4)
+        ordered = rng.random() < 0.4
+        inner_ordered = rng.random() < 0.5
+        table = {(e, e): 1 for e in alpha}
+        for _ in range(rng.randint(0, 4)):
+            table[(rng.choice(alpha), rng.choice(alpha))] = rng.choice([0.5, 1 / 3., 0.1])
+        answers = [rng.sample(alpha, rng.randint(1, 3)) for _ in range(n)]
+        inner = SingleListGrader(subgrader=lib.TableGrader(table=table, ids=False), ordered=inner_ordered)
+        g = ListGrader(answers=[list(a) for a in answers], subgraders=inner, ordered=ordered)
+        boxes = []
+        for a in rng.sample(answers, n):
+            items = list(a)
+            op = rng.choice(['same', 'shuffle', 'drop', 'add', 'swap'])
+            if op == 'shuffle':
+                rng.shuffle(items)
+            elif op == 'drop' and len(items) > 1:
+                items.pop()
+            elif op == 'add':
+                items.append(rng.choice(alpha))
+            elif op == 'swap':
+                items[0] = rng.choice(alpha)
+            boxes.append(items)
+        inputs = [', '.join(b) for b in boxes]
+
+        def inner_grade(ans, sub_items):
+            C = [[table.get((e, s_), 0) for s_ in sub_items] for e in ans]
+            frac, _ = listmodel.single_list_credit(C, len(ans), len(sub_items), inner_ordered, True)
+            return frac
+        P = [[inner_grade(answers[a], boxes[j]) for j in range(n)] for a in range(n)]
+        best = sum(P[k][k] for k in range(n)) if ordered else assign.max_profit(P)
+        out = lib.call(ctx, g, None, list(inputs))
+        ctx.ev()
+        ctx.count('list_calls')
+        ctx.count('singlelist_subgrader_calls')
+        wit = {'answers': answers, 'inputs': inputs, 'ordered': ordered, 'inner_ordered': inner_ordered,
+               'table_offdiagonal': sorted([[a, b, c] for (a, b), c in table.items() if a != b]), 'outcome': out.brief()}
+        ctx.nontrivial(wit)
+        if not out.returned:
+            ctx.violation('C05:singlelist_sub:raises', repr(out.exc), wit)
+            continue
+        entries = out.value['input_list']
+        if len(entries) != n:
+            ctx.violation('C05:singlelist_sub:result_form', 'expected %d entries' % n, wit)
+            continue
+        grades = [e['grade_decimal'] for e in entries]
+        if abs(sum(grades) - best) > 1e-9:
+            ctx.violation('C05:singlelist_sub:' + ('ordered_pairing' if ordered else 'suboptimal'),
+                          'total %r, best possible %r (credit matrix %r)' % (sum(grades), best, P), wit)
+            continue
+        perms = [tuple(range(n))] if ordered else itertools.permutations(range(n))
+        if not any(all(abs(grades[j] - P[p[j]][j]) <= 1e-9 for j in range(n)) for p in perms):
+            ctx.violation('C05:singlelist_sub:entries_not_at_input_positions',
+                          'entry grades %r match no one-to-one assignment of the credit matrix %r' % (grades, P), wit)
+
+
 def run(ctx):
     install_tap(ctx)
     run_flat(ctx)
     run_grouped(ctx)
+    run_singlelist_subgrader(ctx)
     ctx.count('munkres_solves_validated', TAP['solves'])
     for before, out, prob in TAP['bad'][:3]:
         ctx.violation('C05:munkres_tap', 'a solve during grading was wrong: %s' % prob, {'matrix': before, 'result': out})
